@@ -404,27 +404,33 @@ def rowvals(c):
 def expected(c):
     """Independent statement of the property (no map, no sorting of rows): for each identifier, the product
     over the rows carrying it; with draws, the average over k of the products with draw k of row j of the
-    draws table, for every candidate row j."""
+    draws table, for every candidate row j.  All numbers are dyadic: integer numerators over 2^12 per row
+    (data in sixteenths, beta in quarters, draws in 1024ths), exact."""
     rv = rowvals(c)
+    D = 64                                   # p0, p, q are multiples of 1/64
+    rvi = [(int(p0 * D), int(p * D), int(q * D)) for p0, p, q in rv]
+    assert all(Fraction(a, D) == p0 and Fraction(b, D) == p and Fraction(cc, D) == q
+               for (a, b, cc), (p0, p, q) in zip(rvi, rv))
     inds = sorted(set(c['ids']))
     N = len(inds)
+    R = c['R']
     plain, mc = {}, {}
     for i in inds:
         rows = [k for k, v in enumerate(c['ids']) if v == i]
-        p = Fraction(1)
+        num = 1
         for k in rows:
-            p *= rv[k][0]
-        plain[i] = p
+            num *= rvi[k][0]
+        plain[i] = Fraction(num, D ** len(rows))
         cand = []
         for j in range(N):
-            s = Fraction(0)
-            for kd in range(c['R']):
-                xi = 1 + Fraction(32 * j + kd, 1024)
-                t = Fraction(1)
+            s = 0
+            for kd in range(R):
+                xin = 1024 + 32 * j + kd      # draw = xin / 1024
+                t = 1
                 for k in rows:
-                    t *= rv[k][1] + rv[k][2] * xi
+                    t *= rvi[k][1] * 1024 + rvi[k][2] * xin
                 s += t
-            cand.append(s / c['R'])
+            cand.append(Fraction(s, (D * 1024) ** len(rows) * R))
         mc[i] = cand
     return inds, plain, mc
 
@@ -678,4 +684,6 @@ def replay(ctx, path):
             cross_variant_oracle(v, [(wit['base'], rb), (c, r)])
             bad += v.v
     print(json.dumps({'witness': c, 'observed': r, 'failures': bad, 'still_fails': bool(bad)}, default=str)[:4000])
+    import shutil
+    shutil.rmtree(ctx.scratch, ignore_errors=True)
     return 1 if bad else 0
